@@ -156,7 +156,8 @@ theorem tickDispatchers_TI {S} : ∀ (is : List Nat) (cp : CP), DCI cp → TI S 
     · simp only [hf]; exact ih _ (dispTick_DCI cp i hdc) (dispTick_TI cp i hdc h)
 
 theorem handleLaunch_TI {S} (cp : CP) (h : TI S cp) : TI S (handleLaunch cp).1 := by
-  unfold handleLaunch
+  refine handleLaunch_ind (P := TI S) cp ?_ ⟨h.shapes, fun hf => by simp [CP.rejected] at hf⟩
+  unfold handleLaunchOld
   cases hdr : cp.drvIn with
   | nil => exact h
   | cons k rest =>
